@@ -112,10 +112,12 @@ impl Checker {
     fn build(name: &str, args: &[String], kind: usize) -> Option<Command> {
         let mut c = Command::build(name).ok()?;
         for (i, a) in args.iter().enumerate() {
-            let r = match (kind + i) % 3 {
+            let r = match (kind + i) % 5 {
                 0 => c.add_argument(a.as_str()),
                 1 => c.add_argument(a.clone()),
-                _ => c.add_argument(Cow::Borrowed(a.as_str())),
+                2 => c.add_argument(Cow::Borrowed(a.as_str())),
+                3 => c.add_argument(Cow::<str>::Owned(a.clone())),
+                _ => c.add_argument(&a.clone()),
             };
             r.ok()?;
         }
@@ -339,7 +341,7 @@ impl Property for C06 {
     fn meta(&self, _cfg: &Cfg, _acc: &Acc) -> Meta {
         Meta {
             level: "exploration",
-            rule: "EXHAUSTIVE: all 4369 strings of length <=3 over one representative per character class (lower, upper, digit, space, tab, CR, 0x01, 0x0B, 0x1F, double quote, single quote, backslash, NUL, 2/3/4-byte UTF-8), each as single argument, first/middle/last of three and before/after an empty argument, through &str/String/Cow; all ASCII names of length <=2 accepted by build; plus random commands with 0-12 arguments of up to 200 bytes; the bytes written by Connection::send (and AsyncConnection::send with 7-byte write granularity, and the inner line of a rendered list) are tokenised by the MPD tokenizer port and must give back name and arguments byte for byte; failing commands are attributed argument by argument to known-finding classes (input predicate + failure mode) and must round-trip once those arguments are neutralised; non-trivial = argument containing a blank/control/quote/backslash/non-ASCII byte or empty; distinct by argument string".into(),
+            rule: "EXHAUSTIVE: all 4369 strings of length <=3 over one representative per character class (lower, upper, digit, space, tab, CR, 0x01, 0x0B, 0x1F, double quote, single quote, backslash, NUL, 2/3/4-byte UTF-8), each as single argument, first/middle/last of three and before/after an empty argument, through &str/String/&String/Cow::Borrowed/Cow::Owned; all ASCII names of length <=2 accepted by build; plus random commands with 0-12 arguments of up to 200 bytes; the bytes written by Connection::send (and AsyncConnection::send with 7-byte write granularity, and the inner line of a rendered list) are tokenised by the MPD tokenizer port and must give back name and arguments byte for byte; failing commands are attributed argument by argument to known-finding classes (input predicate + failure mode) and must round-trip once those arguments are neutralised; non-trivial = argument containing a blank/control/quote/backslash/non-ASCII byte or empty; distinct by argument string".into(),
             nontrivial_set: "nontrivial",
             assumptions: vec![
                 "MPD tokenizer port (util/Tokenizer.cxx + ClientRead line handling) is the trusted base; self-tested at start-up against the protocol document's escaping example".into(),
